@@ -361,7 +361,8 @@ theorem patchSize_header (A B name : Bytes) (wide : Bool) (s s' : Nat) (delta : 
     unfold patchSize
     simp only [hr, length_toBE, Nat.lt_irrefl, ↓reduceIte, hof]
     have h1 : ¬ s = 1 := by omega
-    simp only [h1, ↓reduceIte, packBE_ok 4 s delta s' .mutagen hd (by simpa using hfit')]
+    have h0 : ¬ s = 0 := by omega
+    simp only [h1, h0, ↓reduceIte, packBE_ok 4 s delta s' .mutagen hd (by simpa using hfit')]
     have := writeAt_mid A (toBE 4 s) (name ++ B) (toBE 4 s') (by simp)
     simp only [List.append_assoc] at this ⊢
     rw [this]
@@ -510,11 +511,13 @@ theorem patchSize_agree (g g' : Bytes) (off : Nat) (delta : Int) (h : patchSize 
           have hl := packBE_length _ _ _ _ hb
           exact (writeAt_agree g b (off + 8) (by omega)).mono (by omega) (by omega)
     · split at h
-      · cases h
-      · rename_i b hb
-        cases h
-        have hl := packBE_length _ _ _ _ hb
-        exact (writeAt_agree g b off (by omega)).mono (by omega) (by omega)
+      · cases h; exact Agree.refl _ _ _
+      · split at h
+        · cases h
+        · rename_i b hb
+          cases h
+          have hl := packBE_length _ _ _ _ hb
+          exact (writeAt_agree g b off (by omega)).mono (by omega) (by omega)
 
 theorem length_entriesOf (w cnt : Nat) (d : Bytes) : (entriesOf w cnt d).length = cnt := by
   induction cnt generalizing d with
@@ -531,11 +534,11 @@ theorem length_encodeEntries (w : Nat) (es : List Nat) : (encodeEntries w es).le
 /-- what a successful `__update_offset_table` did: the count was readable, fits the atom, every
 patched entry fits its field, and the entries were overwritten by the patched ones -/
 theorem updateOffsetTable_ok (g g' : Bytes) (w off len : Nat) (delta : Int) (o : Nat) (hlen : 12 ≤ len)
-    (h : updateOffsetTable g w off len delta o = .ok g') :
+    (h : updateOffsetTable8 g w off len delta o = .ok g') :
     4 ≤ (tblData g off len).length ∧ ((tblData g off len).drop 4).length = tblCnt g off len * w ∧
       (∀ v ∈ (tblEntries g w off len).map (patchEntry o delta), 0 ≤ v ∧ v < (256 ^ w : Nat)) ∧
       g' = writeAt g (off + 16) (encodeEntries w (((tblEntries g w off len).map (patchEntry o delta)).map Int.toNat)) := by
-  unfold updateOffsetTable at h
+  unfold updateOffsetTable8 at h
   have hp : pyRead g (off + 12) ((len : Int) - 12) = readAt g (off + 12) (len - 12) := by
     unfold pyRead
     have : ¬ ((len : Int) - 12 < 0) := by omega
@@ -561,7 +564,7 @@ theorem updateOffsetTable_ok (g g' : Bytes) (w off len : Nat) (delta : Int) (o :
           omega
 
 theorem updateOffsetTable_agree (g g' : Bytes) (w off len : Nat) (delta : Int) (o : Nat) (hlen : 12 ≤ len)
-    (h : updateOffsetTable g w off len delta o = .ok g') : Agree g g' (off + 16) (off + len) := by
+    (h : updateOffsetTable8 g w off len delta o = .ok g') : Agree g g' (off + 16) (off + len) := by
   obtain ⟨h4, hb, _, hg⟩ := updateOffsetTable_ok g g' w off len delta o hlen h
   rw [hg]
   have hdl : (tblData g off len).length = min (len - 12) (g.length - (off + 12)) := length_readAt' _ _ _
@@ -573,7 +576,7 @@ theorem updateOffsetTable_agree (g g' : Bytes) (w off len : Nat) (delta : Int) (
 
 /-- what a successful `__update_tfhd` did -/
 theorem updateTfhd_ok (g g' : Bytes) (off len : Nat) (delta : Int) (o : Nat) (hlen : 9 ≤ len)
-    (h : updateTfhd g off len delta o = .ok g') :
+    (h : updateTfhd8 g off len delta o = .ok g') :
     3 ≤ (tfhdData g off len).length ∧
     (tfhdHasBase g off len →
       8 ≤ (((tfhdData g off len).drop 7).take 8).length ∧
@@ -581,7 +584,7 @@ theorem updateTfhd_ok (g g' : Bytes) (off len : Nat) (delta : Int) (o : Nat) (hl
       patchEntry o delta (tfhdBaseAt g off len) < (256 ^ 8 : Nat) ∧
       g' = writeAt g (off + 16) (toBE 8 (patchEntry o delta (tfhdBaseAt g off len)).toNat)) ∧
     (¬ tfhdHasBase g off len → g' = g) := by
-  unfold updateTfhd at h
+  unfold updateTfhd8 at h
   have hp : pyRead g (off + 9) ((len : Int) - 9) = readAt g (off + 9) (len - 9) := by
     unfold pyRead
     have : ¬ ((len : Int) - 9 < 0) := by omega
@@ -610,7 +613,7 @@ theorem updateTfhd_ok (g g' : Bytes) (off len : Nat) (delta : Int) (o : Nat) (hl
       cases h; rfl
 
 theorem updateTfhd_agree (g g' : Bytes) (off len : Nat) (delta : Int) (o : Nat) (hlen : 9 ≤ len)
-    (h : updateTfhd g off len delta o = .ok g') : Agree g g' (off + 16) (off + len) := by
+    (h : updateTfhd8 g off len delta o = .ok g') : Agree g g' (off + 16) (off + len) := by
   obtain ⟨h3, hy, hn⟩ := updateTfhd_ok g g' off len delta o hlen h
   by_cases hb : tfhdHasBase g off len
   · obtain ⟨h8, _, _, hg⟩ := hy hb
@@ -678,14 +681,14 @@ theorem parentSteps_in (parents : List PAtom) (delta : Int) (hd : delta ≠ 0) :
 
 theorem tableSteps_in (ts : List (Nat × PAtom)) (delta : Int) (o : Nat)
     (hsz : ∀ t ∈ ts, 12 ≤ t.2.length) :
-    AllIn (ts.map (tableStep delta o)) (ts.map (tableRange delta o)) := by
+    AllIn (ts.map (tableStep8 delta o)) (ts.map (tableRange delta o)) := by
   induction ts with
   | nil => exact .nil
   | cons t r ih =>
     refine .cons ?_ (ih (fun t' ht' => hsz t' (List.mem_cons_of_mem _ ht')))
     intro g g' h
     have ht := hsz t List.mem_cons_self
-    simp only [tableStep] at h
+    simp only [tableStep8] at h
     simp only [tableRange]
     by_cases h0 : t.1 = 0
     · simp only [h0, ↓reduceIte] at h
@@ -695,34 +698,34 @@ theorem tableSteps_in (ts : List (Nat × PAtom)) (delta : Int) (o : Nat)
 
 theorem allSteps_in (parents atoms : List PAtom) (delta : Int) (o : Nat) (hd : delta ≠ 0)
     (hm : (child? atoms nMoov).isSome) (hsz : TablesSized atoms) :
-    AllIn (parentSteps parents delta ++ offsetSteps atoms delta o) (ranges parents atoms delta o) := by
+    AllIn (parentSteps parents delta ++ offsetSteps8 atoms delta o) (ranges parents atoms delta o) := by
   unfold ranges
   apply AllIn.append (parentSteps_in parents delta hd)
-  unfold offsetSteps
+  unfold offsetSteps8
   simp only [hd, ↓reduceIte]
   cases hc : child? atoms nMoov with
   | none => simp [hc] at hm
   | some m => exact tableSteps_in _ delta o hsz
 
 theorem saveAt_none (f : Bytes) (atoms parents : List PAtom) (o old : Nat) (new g : Bytes)
-    (hs : saveAt f atoms parents o old new = (none, g)) :
+    (hs : saveAt8 f atoms parents o old new = (none, g)) :
     o + old ≤ f.length ∧
-      runSteps (parentSteps parents ((new.length : Int) - old) ++ offsetSteps atoms ((new.length : Int) - old) o)
+      runSteps (parentSteps parents ((new.length : Int) - old) ++ offsetSteps8 atoms ((new.length : Int) - old) o)
         (splice f o old new) = (none, g) := by
-  unfold saveAt at hs
+  unfold saveAt8 at hs
   split at hs
   · cases hs
   · exact ⟨by omega, hs⟩
 
 /-- after a save that finished, the bytes differ from the spliced file only inside `ranges` -/
 theorem saveAt_agree (f : Bytes) (atoms parents : List PAtom) (o old : Nat) (new g : Bytes)
-    (hs : saveAt f atoms parents o old new = (none, g)) (hsz : TablesSized atoms) :
+    (hs : saveAt8 f atoms parents o old new = (none, g)) (hsz : TablesSized atoms) :
     g.length = (splice f o old new).length ∧
       ∀ x n, (∀ r ∈ ranges parents atoms ((new.length : Int) - old) o, x + n ≤ r.1 ∨ r.2 ≤ x) →
         readAt g x n = readAt (splice f o old new) x n := by
   obtain ⟨hb, hr⟩ := saveAt_none f atoms parents o old new g hs
   by_cases hd : (new.length : Int) - old = 0
-  · simp only [hd, parentSteps, offsetSteps, ↓reduceIte, List.append_nil, runSteps, Prod.mk.injEq, true_and] at hr
+  · simp only [hd, parentSteps, offsetSteps8, ↓reduceIte, List.append_nil, runSteps, Prod.mk.injEq, true_and] at hr
     subst hr
     exact ⟨rfl, fun _ _ _ => rfl⟩
   · cases hm : child? atoms nMoov with
@@ -730,7 +733,7 @@ theorem saveAt_agree (f : Bytes) (atoms parents : List PAtom) (o old : Nat) (new
       -- `atoms[b"moov"]` raises KeyError: the save does not finish
       exfalso
       rw [runSteps_append] at hr
-      simp only [offsetSteps, hd, ↓reduceIte, hm] at hr
+      simp only [offsetSteps8, hd, ↓reduceIte, hm] at hr
       cases hp : runSteps (parentSteps parents ((new.length : Int) - old)) (splice f o old new) with
       | mk e g1 =>
         rw [hp] at hr
@@ -744,7 +747,7 @@ theorem saveAt_agree (f : Bytes) (atoms parents : List PAtom) (o old : Nat) (new
 the same `n` bytes as before, provided these bytes avoid the replaced region (`Clear`) and, where
 they lie after the save, every field the bookkeeping may rewrite (`ranges`) -/
 theorem media_follow (f : Bytes) (atoms parents : List PAtom) (o old : Nat) (new g : Bytes)
-    (hs : saveAt f atoms parents o old new = (none, g)) (hsz : TablesSized atoms)
+    (hs : saveAt8 f atoms parents o old new = (none, g)) (hsz : TablesSized atoms)
     (e n : Nat) (hc : Clear o old e n)
     (hd : ∀ r ∈ ranges parents atoms ((new.length : Int) - old) o,
       (patchEntry o ((new.length : Int) - old) e).toNat + n ≤ r.1 ∨
@@ -780,7 +783,7 @@ theorem readAt_writeAt_window (g buf : Bytes) (p x n : Nat) (hx : x ≤ p) (hn :
   all_goals (first | (symm; apply List.getElem?_eq_none; omega) | (apply List.getElem?_eq_none; omega))
 
 theorem saveAt_moov (f : Bytes) (atoms parents : List PAtom) (o old : Nat) (new g : Bytes)
-    (hs : saveAt f atoms parents o old new = (none, g)) (hd : (new.length : Int) - old ≠ 0) :
+    (hs : saveAt8 f atoms parents o old new = (none, g)) (hd : (new.length : Int) - old ≠ 0) :
     ∃ m, child? atoms nMoov = some m := by
   obtain ⟨_, hr⟩ := saveAt_none f atoms parents o old new g hs
   cases hm : child? atoms nMoov with
@@ -788,7 +791,7 @@ theorem saveAt_moov (f : Bytes) (atoms parents : List PAtom) (o old : Nat) (new 
   | none =>
     exfalso
     obtain ⟨gm, _, h2⟩ := runSteps_split _ _ _ _ hr
-    simp [offsetSteps, hd, hm, runSteps] at h2
+    simp [offsetSteps8, hd, hm, runSteps] at h2
 
 theorem tableRange_sub (delta : Int) (o : Nat) (t : Nat × PAtom) :
     (extentOf delta o t).1 ≤ (tableRange delta o t).1 ∧ (tableRange delta o t).2 = (extentOf delta o t).2 := by
@@ -798,11 +801,11 @@ theorem tableRange_sub (delta : Int) (o : Nat) (t : Nat × PAtom) :
 file, and what it leaves there is what the finished save leaves there — when the extents of the
 fields the save writes to are pairwise disjoint -/
 theorem table_isolated (f : Bytes) (atoms parents : List PAtom) (o old : Nat) (new g : Bytes)
-    (hs : saveAt f atoms parents o old new = (none, g)) (hsz : TablesSized atoms)
+    (hs : saveAt8 f atoms parents o old new = (none, g)) (hsz : TablesSized atoms)
     (hd : (new.length : Int) - old ≠ 0)
     (hpw : ExtentsDisjoint parents atoms ((new.length : Int) - old) o)
     (t : Nat × PAtom) (ht : t ∈ visited atoms) :
-    ∃ ga gb, tableStep ((new.length : Int) - old) o t ga = .ok gb ∧
+    ∃ ga gb, tableStep8 ((new.length : Int) - old) o t ga = .ok gb ∧
       ga.length = (splice f o old new).length ∧
       (∀ x n, (extentOf ((new.length : Int) - old) o t).1 ≤ x → x + n ≤ (extentOf ((new.length : Int) - old) o t).2 →
         readAt ga x n = readAt (splice f o old new) x n) ∧
@@ -813,15 +816,15 @@ theorem table_isolated (f : Bytes) (atoms parents : List PAtom) (o old : Nat) (n
   obtain ⟨_, hr⟩ := saveAt_none f atoms parents o old new g hs
   obtain ⟨m, hm⟩ := saveAt_moov f atoms parents o old new g hs (by rw [hdl]; exact hd)
   rw [hdl] at hr
-  have hsteps : parentSteps parents delta ++ offsetSteps atoms delta o =
-      (parentSteps parents delta ++ A.map (tableStep delta o)) ++ ([tableStep delta o t] ++ B.map (tableStep delta o)) := by
-    simp [offsetSteps, hd, hm, hAB]
+  have hsteps : parentSteps parents delta ++ offsetSteps8 atoms delta o =
+      (parentSteps parents delta ++ A.map (tableStep8 delta o)) ++ ([tableStep8 delta o t] ++ B.map (tableStep8 delta o)) := by
+    simp [offsetSteps8, hd, hm, hAB]
   rw [hsteps] at hr
   obtain ⟨ga, h1, h2⟩ := runSteps_split _ _ _ _ hr
   obtain ⟨gb, h3, h4⟩ := runSteps_split _ _ _ _ h2
-  have hstep : tableStep delta o t ga = .ok gb := by
+  have hstep : tableStep8 delta o t ga = .ok gb := by
     simp only [runSteps] at h3
-    cases hq : tableStep delta o t ga with
+    cases hq : tableStep8 delta o t ga with
     | error e => rw [hq] at h3; cases h3
     | ok g2 => rw [hq] at h3; cases h3; rfl
   -- sizes of the tables before and after `t`
@@ -829,10 +832,10 @@ theorem table_isolated (f : Bytes) (atoms parents : List PAtom) (o old : Nat) (n
     fun a ha => hsz a (by rw [hAB]; simp [ha])
   have hszB : ∀ a ∈ B, 12 ≤ a.2.length :=
     fun a ha => hsz a (by rw [hAB]; simp [ha])
-  have in1 : AllIn (parentSteps parents delta ++ A.map (tableStep delta o))
+  have in1 : AllIn (parentSteps parents delta ++ A.map (tableStep8 delta o))
       (parents.map parentRange ++ A.map (tableRange delta o)) :=
     (parentSteps_in parents delta hd).append (tableSteps_in A delta o hszA)
-  have in2 : AllIn (B.map (tableStep delta o)) (B.map (tableRange delta o)) := tableSteps_in B delta o hszB
+  have in2 : AllIn (B.map (tableStep8 delta o)) (B.map (tableRange delta o)) := tableSteps_in B delta o hszB
   obtain ⟨hl1, hw1⟩ := runSteps_agree _ _ in1 _ _ h1
   obtain ⟨_, hw2⟩ := runSteps_agree _ _ in2 _ _ h4
   -- disjointness
@@ -915,7 +918,7 @@ theorem extent_in_bounds (f new : Bytes) (o old off len : Nat) (hb : o + old ≤
 avoids the replaced region has the same count as before and holds exactly the old entries patched
 by the rule `+ delta iff offset < entry` -/
 theorem table_patched (f : Bytes) (atoms parents : List PAtom) (o old : Nat) (new g : Bytes)
-    (hs : saveAt f atoms parents o old new = (none, g)) (hsz : TablesSized atoms)
+    (hs : saveAt8 f atoms parents o old new = (none, g)) (hsz : TablesSized atoms)
     (hpw : ExtentsDisjoint parents atoms ((new.length : Int) - old) o)
     (t : Nat × PAtom) (ht : t ∈ visited atoms) (hw : t.1 ≠ 0)
     (hc : Clear o old t.2.offset t.2.length) (hin : t.2.offset + t.2.length ≤ f.length) :
@@ -935,7 +938,7 @@ theorem table_patched (f : Bytes) (atoms parents : List PAtom) (o old : Nat) (ne
   rw [← hst] at hbound
   by_cases hd : (new.length : Int) - old = 0
   · -- nothing to do: the file is the spliced file, the rule adds 0
-    simp only [hd, parentSteps, offsetSteps, ↓reduceIte, List.append_nil, runSteps, Prod.mk.injEq, true_and] at hr
+    simp only [hd, parentSteps, offsetSteps8, ↓reduceIte, List.append_nil, runSteps, Prod.mk.injEq, true_and] at hr
     subst hr
     rw [hd] at hD1 ⊢
     unfold tblEntries tblCnt
@@ -948,7 +951,7 @@ theorem table_patched (f : Bytes) (atoms parents : List PAtom) (o old : Nat) (ne
     generalize hdl : (new.length : Int) - old = delta at *
     generalize hsl : shifted t.2 delta o = st at *
     simp only [extentOf, hsl] at hwa hwb
-    simp only [tableStep, hw, ↓reduceIte, hsl] at hstep
+    simp only [tableStep8, hw, ↓reduceIte, hsl] at hstep
     obtain ⟨h4, hbl, hfit, hgb⟩ := updateOffsetTable_ok ga gb t.1 st t.2.length delta o hlen hstep
     have hDa : tblData ga st t.2.length = tblData f t.2.offset t.2.length := by
       rw [← hD1]; unfold tblData; exact hwa _ _ (by omega) (by omega)
@@ -999,7 +1002,7 @@ theorem table_patched (f : Bytes) (atoms parents : List PAtom) (o old : Nat) (ne
 region has the same flags as before, and if it records a base data offset, that offset is the old
 one patched by the rule `+ delta iff offset < base` -/
 theorem tfhd_patched (f : Bytes) (atoms parents : List PAtom) (o old : Nat) (new g : Bytes)
-    (hs : saveAt f atoms parents o old new = (none, g)) (hsz : TablesSized atoms)
+    (hs : saveAt8 f atoms parents o old new = (none, g)) (hsz : TablesSized atoms)
     (hpw : ExtentsDisjoint parents atoms ((new.length : Int) - old) o)
     (t : Nat × PAtom) (ht : t ∈ visited atoms) (hw : t.1 = 0)
     (hc : Clear o old t.2.offset t.2.length) (hin : t.2.offset + t.2.length ≤ f.length) :
@@ -1018,7 +1021,7 @@ theorem tfhd_patched (f : Bytes) (atoms parents : List PAtom) (o old : Nat) (new
   have hbound := extent_in_bounds f new o old t.2.offset t.2.length hb hc hin
   rw [← hst] at hbound
   by_cases hd : (new.length : Int) - old = 0
-  · simp only [hd, parentSteps, offsetSteps, ↓reduceIte, List.append_nil, runSteps, Prod.mk.injEq, true_and] at hr
+  · simp only [hd, parentSteps, offsetSteps8, ↓reduceIte, List.append_nil, runSteps, Prod.mk.injEq, true_and] at hr
     subst hr
     rw [hd] at hD1 ⊢
     unfold tfhdHasBase tfhdBaseAt
@@ -1029,7 +1032,7 @@ theorem tfhd_patched (f : Bytes) (atoms parents : List PAtom) (o old : Nat) (new
     generalize hdl : (new.length : Int) - old = delta at *
     generalize hsl : shifted t.2 delta o = st at *
     simp only [extentOf, hsl] at hwa hwb
-    simp only [tableStep, hw, ↓reduceIte, hsl] at hstep
+    simp only [tableStep8, hw, ↓reduceIte, hsl] at hstep
     obtain ⟨h3, hyes, hno⟩ := updateTfhd_ok ga gb st t.2.length delta o (by omega) hstep
     have hDa : tfhdData ga st t.2.length = tfhdData f t.2.offset t.2.length := by
       rw [← hD1]; unfold tfhdData; exact hwa _ _ (by omega) (by omega)
@@ -1090,22 +1093,19 @@ theorem filter_eq_find (l : List PAtom) (p : PAtom → Bool) (h : (l.filter p).l
     · simp only [List.filter_cons, hp, List.find?_cons] at h ⊢
       exact ih h
 
-/-- with one top-level `moov` and at most one top-level `moof`, `__update_offsets` visits every
-table atom of the file -/
+/-- with one top-level `moov`, `__update_offsets` visits every table atom of the file (any
+number of top-level `moof` atoms) -/
 theorem visited_eq_allTables (atoms : List PAtom)
-    (hmoov : (atoms.filter (·.name = nMoov)).length = 1) (hmoof : (atoms.filter (·.name = nMoof)).length ≤ 1) :
+    (hmoov : (atoms.filter (·.name = nMoov)).length = 1) :
     visited atoms = allTables atoms := by
   unfold visited allTables child?
-  rw [filter_eq_find atoms _ (by omega), filter_eq_find atoms _ hmoof]
+  rw [filter_eq_find atoms (·.name = nMoov) (by omega)]
   have h1 := filter_eq_find atoms (·.name = nMoov) (by omega)
   cases hm : atoms.find? (·.name = nMoov) with
   | none => rw [hm] at h1; rw [h1] at hmoov; simp at hmoov
-  | some m =>
-    cases hf : atoms.find? (·.name = nMoof) with
-    | none => simp
-    | some mf => simp
+  | some m => simp
 
-/-- `updateParents` (the form used in `parent_sizes`) is the `__update_parents` part of `saveAt` -/
+/-- `updateParents` (the form used in `parent_sizes`) is the `__update_parents` part of `saveAt8` -/
 theorem parentSteps_updateParents (ps : List PAtom) (delta : Int) (hd : delta ≠ 0) (g g' : Bytes)
     (h : updateParents g (ps.map (·.offset)) delta = .ok g') :
     runSteps (parentSteps ps delta) g = (none, g') := by
@@ -1155,5 +1155,46 @@ theorem tfhd_spec (f : Bytes) (off len : Nat) (hp : 16 ≤ (readAt f (off + 8) (
   unfold tfhdBase tfhdBaseAt
   have : ¬ (readAt f (off + 8) (len - 8)).length < 16 := by omega
   simp only [this, ↓reduceIte, hd, List.drop_drop]
+
+/-! ### I. the general (header-length aware) bookkeeping coincides with the `8` form on 8-byte headers -/
+
+theorem updateOffsetTable_hl8 (g : Bytes) (w off len : Nat) (delta : Int) (offset : Nat) :
+    updateOffsetTable g 8 w off len delta offset = updateOffsetTable8 g w off len delta offset := by
+  unfold updateOffsetTable updateOffsetTable8
+  have e1 : off + 8 + 4 = off + 12 := by omega
+  have e2 : off + 8 + 8 = off + 16 := by omega
+  have e3 : (len : Int) - (8 : Nat) - 4 = (len : Int) - 12 := by omega
+  rw [e1, e2, e3]
+
+theorem updateTfhd_hl8 (g : Bytes) (off len : Nat) (delta : Int) (offset : Nat) :
+    updateTfhd g 8 off len delta offset = updateTfhd8 g off len delta offset := by
+  unfold updateTfhd updateTfhd8
+  have e1 : off + 8 + 1 = off + 9 := by omega
+  have e2 : off + 8 + 8 = off + 16 := by omega
+  have e3 : (len : Int) - (8 : Nat) - 1 = (len : Int) - 9 := by omega
+  rw [e1, e2, e3]
+
+theorem tableStep_eq8 (delta : Int) (offset : Nat) (t : Nat × PAtom) (h : t.2.dataoffset = t.2.offset + 8) :
+    tableStep delta offset t = tableStep8 delta offset t := by
+  have hh : hdrOf t.2 = 8 := by unfold hdrOf; omega
+  funext g
+  unfold tableStep tableStep8
+  rw [hh, updateOffsetTable_hl8, updateTfhd_hl8]
+
+/-- on files whose visited table atoms have the ordinary 8-byte header, the save as the code does it
+now is the save the byte-level theorems are about -/
+theorem saveAt_eq_saveAt8 (f : Bytes) (atoms parents : List PAtom) (o old : Nat) (new : Bytes)
+    (h : ∀ t ∈ visited atoms, t.2.dataoffset = t.2.offset + 8) :
+    saveAt f atoms parents o old new = saveAt8 f atoms parents o old new := by
+  unfold saveAt saveAt8
+  have hs : ∀ delta, offsetSteps atoms delta o = offsetSteps8 atoms delta o := by
+    intro delta
+    unfold offsetSteps offsetSteps8
+    split
+    · rfl
+    · split
+      · rfl
+      · exact List.map_congr_left fun t ht => tableStep_eq8 delta o t (h t ht)
+  simp only [hs]
 
 end Mutagen.Mp4C
